@@ -1359,9 +1359,14 @@ class DataFieldRecordArray(
             raise TypeError(
                 'The arr argument must be an instance of DataFieldRecordArray!')
 
+        # Create all the new field arrays first, so this instance is left
+        # untouched in case ``arr`` misses one of the data fields.
+        new_data_fields = dict()
         for fname in self._field_name_list:
-            self._data_fields[fname] = np.append(
+            new_data_fields[fname] = np.append(
                 self._data_fields[fname], arr[fname])
+
+        self._data_fields.update(new_data_fields)
 
         self._len += len(arr)
         self._indices = None
